@@ -78,7 +78,7 @@ def run_shard(ctx):
         if ctx.out_of_time():
             ctx.count("stopped_on_time_budget")
             break
-        cfg = M.gen_config(rng, long_adapters=True, very_long=0.04)
+        cfg = M.gen_config(rng, long_adapters=True, very_long=0.04, odd_chars=0.04)
         if (len(cfg["seq"]), cfg["max_errors"]) in M.ROUNDING_PAIRS:
             ctx.count("configs_where_errors_times_length_rounds_down")
         ad = M.build(cfg)
